@@ -104,6 +104,20 @@ CHECKS = {
         'Model tied to pipeline.py by exhaustive chunkings of small N + random, bit-exact against one-shot scipy primitives.',
    ref='DESIGN.md section 6 C12', note=COMMON_NOTE + ' lfilter/RMS/threshold kernels are abstract step functions (oracles); derivative is claimed for annotated input; rms contiguity assumes n divides the first s0.',
    technique='Coq proof (carry-over state invariants by induction over chunk lists) + vm_compute correspondence against pipeline.py'),
+ 'C11': dict(
+   text='Theorem C11_getitem_regular: for EVERY index expression over ints, slices, lists, boolean masks, Ellipsis and newaxis on any well-formed 1-3-D annotated array, '
+        'the modelled normalize_index + attribute fix-up equals NumPy\'s per-axis reading; corollaries: time axis of a unit-step slice = slice of the time axis (positive, negative, '
+        'out-of-range bounds), stride multiplies the sample period, labels/metadata follow the selection, concat of any time split restores the array, concat accepts only adjacent '
+        'pieces with equal rate/labels/metadata. Model tied to pipeline.py by an exhaustive index-expression grammar on small shapes.',
+   ref='DESIGN.md section 6 C11', note=COMMON_NOTE + ' The NumPy indexing layer (broadcasting of index arrays, placement of advanced-index axes) is modelled and tied by correspondence only; '
+        'two known findings (int on the channel axis of a 3-D array keeping the epoch axis; paired list/mask indices on two axes) excuse only the count deviation; s0 after a strided slice is outside the claim.',
+   technique='Coq proof (case analysis over index expressions, list lemmas) + vm_compute correspondence against pipeline.py'),
+ 'C17': dict(
+   text='Theorems for all batches and all sequences of batches: forwarded = exactly the (metadata, epoch) pairs whose criterion (max |x| or max - min) is STRICTLY below the threshold in force, '
+        'in original order, masked through the C11 boolean-mask index model; equal-to-threshold rejected; all-rejected forwards nothing; status callback gets the mask; multichannel / un-epoched '
+        'input refused. Model tied to pipeline.py by batches at / just below / just above threshold, constant and callable thresholds, plain and annotated.',
+   ref='DESIGN.md section 6 C17', note=COMMON_NOTE + ' Sample values are integer-valued so comparisons are exact.',
+   technique='Coq proof (list filtering lemmas over the C11 index model) + vm_compute correspondence against pipeline.py'),
 }
 
 PENDING = 'not yet built in this round (framework is being extended property by property; see DESIGN.md section 8)'
